@@ -236,6 +236,9 @@ def run_word_impl(s3, case):
     s3.objects[f'/{BUCKET}/zz-other'] = b'x'          # keeps the bucket non-empty
     store = make_store(s3.url, case['budget'], rt, default_cfg=case.get('default_cfg', False))
     budget, force = store_budget(store)
+    if not case.get('default_cfg'):
+        # the documented meaning of retries=(connect, read) is what the model is given, not what the store made of it
+        budget['connect'], budget['read'] = case['budget'].get('connect', 1), case['budget']['read']
     mode = case['mode']
     res = dict(budget=budget, force=force)
     if mode == 'chunk':
@@ -716,6 +719,14 @@ def gen_word_cases(ctx):
                     arr_i = rng.randrange(len(ARRAYS))
                     cases.append(dict(kind='word', mode=mode, budget=budget, arr=arr_i,
                                       word=realise(rng, letters, body_len(mode, arr_i))))
+    # retries given as a (connect, read) tuple with DIFFERENT values: body faults are charged to the read budget
+    for budget in (dict(total=10, connect=0, read=1, status=1), dict(total=10, connect=2, read=0, status=1),
+                   dict(total=10, connect=0, read=2, status=1)):
+        for mode in ('chunk', 'rdb'):
+            for letters in ([('T',)], [('R',)], [('T',), ('R',)], [('R',), ('T',), ('T',)]):
+                arr_i = rng.randrange(len(ARRAYS))
+                cases.append(dict(kind='word', mode=mode, budget=budget, arr=arr_i, asym=True,
+                                  word=realise(rng, letters, body_len(mode, arr_i))))
     # stalls (cost: one read timeout each)
     b11 = dict(total=10, connect=1, read=1, status=1)
     if ctx.tier == 'quick':
@@ -936,6 +947,8 @@ def evaluate(ctx, s3, cases):
                 ctx.tag('fault-' + f[0] + (f'-{f[1]}' if f[0] == 'status' else ''))
             if case.get('default_cfg'):
                 ctx.tag('default-retry-config')
+            if case.get('asym'):
+                ctx.tag('asymmetric-connect-read-budget')
             ctx.count(('word', case['mode'], enc_budget(impl['budget']), enc_word(case['word']), case['arr']),
                       nontrivial=bool(case['word']),
                       sample={'mode': case['mode'], 'word': enc_word(case['word']), 'impl': case.get('impl'),
